@@ -153,7 +153,8 @@ def c06(tier, seed):
 
 # ------------------------------------------------------------------------------------------ overlay
 
-def ovl_cases(universe, nlayers, props_, seed, ncfg=None, k1_ops=None, k2=0, k3=0, removal_first=False, max_nodes=None, layer_kind='mem', k2_first=None, recreate=0, then_parent=False, tag='C09'):
+def ovl_cases(universe, nlayers, props_, seed, ncfg=None, k1_ops=None, k2=0, k3=0, removal_first=False, max_nodes=None, layer_kind='mem', k2_first=None, recreate=0, then_parent=False, tag='C09',
+              transfers=0):
     """cases for overlay.run_history_case: per layer configuration a list of histories"""
     from . import overlay
     u = UNIVERSES[universe]()
@@ -202,6 +203,12 @@ def ovl_cases(universe, nlayers, props_, seed, ncfg=None, k1_ops=None, k2=0, k3=
                     rm_ = 'remove_file' if kinds_[v1] == 'f' else 'remove_dir_all'
                     hs.append([(rm_, v1), ('remove_dir', par)])
                     hs.append([(rm_, v1), ('remove_dir_all', par)])
+        if transfers:
+            # copy/move inside the overlay (source possibly only in a lower layer), optionally followed by one more call
+            for tr in overlay.TRANSFERS:
+                hs.append([tr])
+                if transfers > 1:
+                    hs.append([tr, (rng.choice(overlay.HIST_OPS), rng.choice([tr[1], tr[2]] + real))])
         if k2_first:
             # histories that start with the given first calls on entries of this configuration, then any call
             for o1 in k2_first:
@@ -290,6 +297,8 @@ def c08(tier, seed):
         plan = [('UO3', 2, dict(k1_ops=overlay.HIST_OPS + overlay.OBS_OPS + overlay.TIME_OPS, k2=6)),
                 ('UO3', 3, dict(ncfg=40, k1_ops=overlay.HIST_OPS + overlay.TIME_OPS)),
                 ('USYM', 2, dict(ncfg=30, k1_ops=overlay.HIST_OPS + overlay.TIME_OPS, k2=3)),
+                ('UOT', 2, dict(ncfg=60, transfers=1)),
+                ('UOT', 3, dict(ncfg=30, transfers=1)),
                 ('UO3', 2, dict(ncfg=40, k1_ops=['append', 'write', 'remove_file', 'create_dir_all'], k2_first=['append'], layer_kind='physshared'))]
     else:
         plan = [('UO3', 2, dict(k1_ops=overlay.HIST_OPS + overlay.OBS_OPS + overlay.TIME_OPS, k2=80, k3=20)),
@@ -297,6 +306,8 @@ def c08(tier, seed):
                 ('UO4', 2, dict(ncfg=300, k1_ops=overlay.HIST_OPS + overlay.TIME_OPS, k2=20)),
                 ('UO3', 4, dict(ncfg=150, k1_ops=overlay.HIST_OPS, k2=5)),
                 ('USYM', 2, dict(k1_ops=overlay.HIST_OPS + overlay.TIME_OPS, k2=30)),
+                ('UOT', 2, dict(transfers=2)),
+                ('UOT', 3, dict(ncfg=300, transfers=2)),
                 ('UO3', 2, dict(k1_ops=overlay.HIST_OPS + overlay.TIME_OPS, k2=10, k2_first=['append', 'write'], layer_kind='physshared'))]
     return run_overlay('C08', tier, seed, plan)
 
@@ -471,8 +482,10 @@ def c19(tier, seed):
     prog = load_program()
     ck.selftest = quick_selftest(prog, seed, 12 if tier == 'quick' else 150, kinds=['mem', 'alt', 'ovl'])
     cases = [{'cfg': c, 'kind': k, 'steps': 2 if tier == 'quick' else 3} for c in ['mem', 'alt', 'ovl_upper', 'ovl_lower', 'phys', 'alt_phys'] for k in ['file', 'dir']]
+    cases += [{'cfg': c, 'kind': 'root', 'steps': 2 if tier == 'quick' else 3} for c in ['mem', 'alt', 'ovl_upper', 'phys']]
     ck.add(run_cases(prog, times.run_times_case, cases), 'setter sequences with symbolic SystemTime values on files and directories')
-    ck.bounds = {'configs': ['mem', 'alt', 'ovl_upper', 'ovl_lower'], 'setter_sequence_length': 2 if tier == 'quick' else 3,
+    ck.bounds = {'configs': ['mem', 'alt', 'ovl_upper', 'ovl_lower', 'phys', 'alt_phys'], 'entries': 'a file, a directory, the filesystem root',
+                 'setter_sequence_length': 2 if tier == 'quick' else 3,
                  'time_values': 'any 64-bit instant (solver variable); SystemTime::now = fresh symbolic instant',
                  'not_encoded': 'PhysicalFS/filetime (utimensat) and its NotSupported creation-time path'}
     ck.assumptions = COMMON_ASSUMPTIONS[:4] + ['SystemTime is an opaque 64-bit instant compared by equality/order']
